@@ -440,7 +440,7 @@ pub const C01_PROBES: &[&str] = &[
     "cut_inside_length_prefix", "tight_buffer", "pair_over_one_record", "buffer_holds_whole_huge_record",
 ];
 pub const C04REQ_PROBES: &[&str] = &["abort_during_params", "exact_fill_read", "params_3plus_records", "cut_inside_length_prefix"];
-pub const C06_PROBES: &[&str] = &["exact_fill_read", "pair_at_bound", "pair_beyond_buffer", "tight_limit_ok", "bufsize_table"];
+pub const C06_PROBES: &[&str] = &["exact_fill_read", "pair_at_bound", "pair_beyond_buffer", "tight_limit_ok", "bufsize_table", "getvalues_pair_beyond_buffer"];
 #[allow(dead_code)]
 pub const D1REQ_PROBES: &[&str] = &[
     "exact_fill_read", "params_3plus_records", "long_form_small_len", "getvalues_incomplete_tail",
@@ -548,6 +548,27 @@ pub fn c06(cx: &mut Ctx) -> VResult {
     let mut recs = Vec::new();
     let (fl, nn) = (cx.ch.byte(), cx.ch.pick(3));
     preamble_records(cx, &mut recs, id, role, fl, &pairs, nn, eff, true);
+    // beyond-the-buffer cases: half of them put the oversized unit into a GetValues query (an unknown, long
+    // variable name) instead of the Params stream - before the request or between its Params records
+    let mut gv_oversized = false;
+    if delta == 6 && cx.ch.chance(1, 2) && eff < 60000 {
+        let total = eff + cx.ch.range(0, 40);
+        let nl = if cx.ch.chance(1, 2) { total } else { cx.ch.range(total / 2, total) };
+        let mut body = Vec::new();
+        varint(nl, &mut body);
+        varint(total - nl, &mut body);
+        body.extend((0..nl).map(|i| b'a' + (i % 26) as u8));
+        body.extend((0..total - nl).map(|i| b'0' + (i % 10) as u8));
+        if body.len() <= 65535 {
+            // position: before BeginRequest or right behind a Params record
+            let spots: Vec<usize> = recs.iter().enumerate().filter(|(_, r)| r.rtype == BEGIN || (r.rtype == PARAMS && !r.content.is_empty())).map(|(i, r)| if r.rtype == BEGIN && cx.ch.chance(1, 2) { i } else { i + 1 }).collect();
+            let at = spots[cx.ch.pick(spots.len() as u32) as usize];
+            let pad = gen_padding(cx);
+            recs.insert(at, Rec::new(GETVALUES, 0, body, pad));
+            gv_oversized = true;
+            cx.probe("getvalues_pair_beyond_buffer");
+        }
+    }
     let wire = encode_all(&recs);
     let case = PreCase { wire, recs, bufsize, max_conns: 3, trailing: 0 };
     let m = model::preamble(&case.wire, 0, case.max_conns);
@@ -574,6 +595,8 @@ pub fn c06(cx: &mut Ctx) -> VResult {
             if let PreOutcome::Done(info) = &m.outcome {
                 check_request(cx, &req, info, "c01_request")?;
             }
+            // (an implementation that digests an oversized GetValues pair piecewise would be fine as well)
+            let _ = gv_oversized;
             cx.probe("tight_limit_ok");
         }
         Ok(Err(PErr::StuckOnInput)) => {
